@@ -2,25 +2,38 @@
 """Apply every confirmed seeded change to /repo in turn, run the check of its property (quick tier), restore /repo, and record what caught it
 in seeded/<id>/meta.json (caught_by) and seeded/RESULTS.json.  usage: tools/seedsweep.py [ID-prefix ...]"""
 import json, subprocess, sys, glob, os, re
-sel = sys.argv[1:]
+# --stream k/n : handle only the properties with (number % n == k) on a scratch worktree /tmp/wtsweep<k> (OPC_REPO), so that n streams can run at once
+STREAM = None
+args = sys.argv[1:]
+if args and args[0] == "--stream":
+    k, n = map(int, args[1].split("/")); STREAM = (k, n); args = args[2:]
+sel = args
+REPO = "/repo"
+if STREAM:
+    REPO = f"/tmp/wtsweep{STREAM[0]}"
+    if not os.path.isdir(REPO):
+        subprocess.run(["git", "-C", "/repo", "worktree", "add", "-q", "--detach", REPO, "HEAD"], check=True)
+    subprocess.run(f"cd {REPO} && git checkout -q --detach $(git -C /repo rev-parse HEAD) && git checkout -q -- .", shell=True, check=True)
 res = {}
 for d in sorted(glob.glob("/verif/seeded/C*-*")):
     name = os.path.basename(d)
     if sel and not any(name.startswith(s) for s in sel):
         continue
     pid = name.split("-")[0]
-    if subprocess.run(["git", "-C", "/repo", "diff", "--quiet"]).returncode != 0:
+    if STREAM and int(pid[1:]) % STREAM[1] != STREAM[0]:
+        continue
+    if subprocess.run(["git", "-C", REPO, "diff", "--quiet"]).returncode != 0:
         print("/repo dirty, abort"); sys.exit(3)
     patch = d + "/patch.head.diff" if os.path.exists(d + "/patch.head.diff") else d + "/patch.diff"
-    ok = subprocess.run(["git", "-C", "/repo", "apply", patch], capture_output=True).returncode == 0
+    ok = subprocess.run(["git", "-C", REPO, "apply", patch], capture_output=True).returncode == 0
     if not ok:
-        ok = subprocess.run(f"cd /repo && patch -p1 --fuzz=3 --no-backup-if-mismatch -s < {patch}", shell=True, capture_output=True).returncode == 0
+        ok = subprocess.run(f"cd {REPO} && patch -p1 --fuzz=3 --no-backup-if-mismatch -s < {patch}", shell=True, capture_output=True).returncode == 0
     if not ok:
-        subprocess.run("cd /repo && find . -name '*.rej' -delete; find . -name '*.orig' -delete; git checkout -q -- .", shell=True)
+        subprocess.run(f"cd {REPO} && find . -name '*.rej' -delete; find . -name '*.orig' -delete; git checkout -q -- .", shell=True)
         res[name] = {"applied": False}
         print(name, "DOES NOT APPLY"); continue
     try:
-        r = subprocess.run(["./check", pid, "--tier", "quick"], cwd="/verif", capture_output=True, text=True, timeout=3000)
+        r = subprocess.run(["./check", pid, "--tier", "quick"], cwd="/verif", capture_output=True, text=True, timeout=3000, env=dict(os.environ, OPC_REPO=REPO))
         out = r.stdout + r.stderr
         keys = re.findall(r"^  key=(\S.*?) ::", out, re.M)
         drift = len(re.findall(r"^SPEC-DRIFT", out, re.M))
@@ -28,7 +41,7 @@ for d in sorted(glob.glob("/verif/seeded/C*-*")):
     except subprocess.TimeoutExpired:
         res[name] = {"applied": True, "rc": "timeout"}
     finally:
-        subprocess.run("cd /repo && git checkout -q -- . && git clean -fdq openapi_python_client", shell=True)
+        subprocess.run(f"cd {REPO} && git checkout -q -- . && git clean -fdq openapi_python_client", shell=True)
     print(name, json.dumps(res[name])[:300], flush=True)
     mp = d + "/meta.json"
     m = json.load(open(mp))
@@ -40,8 +53,9 @@ for d in sorted(glob.glob("/verif/seeded/C*-*")):
     else:
         m["caught_by_quick"] = {"check": pid, "exit": res[name].get("rc"), "note": "not caught on HEAD (see caught_by / DESIGN.md 11.6)"}
     json.dump(m, open(mp, "w"), indent=1)
+out = "/verif/seeded/RESULTS.json" if not STREAM else f"/verif/seeded/RESULTS.stream{STREAM[0]}.json"
 old = {}
-if os.path.exists("/verif/seeded/RESULTS.json"):
-    old = json.load(open("/verif/seeded/RESULTS.json"))
+if os.path.exists(out):
+    old = json.load(open(out))
 old.update(res)
-json.dump(old, open("/verif/seeded/RESULTS.json", "w"), indent=1)
+json.dump(old, open(out, "w"), indent=1)
